@@ -24,12 +24,12 @@ WORKERS = int(os.environ.get("C07_WORKERS", "6"))
 IMPL_INVS = ["ImplExact", "ImplBitExact", "ImplTables", "ImplImposesFull", "ImplFixesFull", "ImplKeepsPeriodic",
              "ImplIdempotent", "ImplImposesCompact", "ImplFixesCompact", "ImplCompactEqFull", "ImplExpandIsDefinition",
              "ImplImposesSG", "ImplFixesSG", "ImplSGKeeps", "ImplTransposeIsTranspose", "ImplTransposeInvolution",
-             "ImplDriftUnchanged", "ImplCompactFullCompact", "ImplToCompactIsDefinition", "ImplFullCompactFull"]
-CONF_INVS = ["ConformsOut", "ConformsFullSym"]
+             "ImplDriftUnchanged", "ImplDriftDisplayed", "ImplCompactFullCompact", "ImplToCompactIsDefinition", "ImplFullCompactFull"]
+CONF_INVS = ["ConformsOut", "ConformsFullSym", "ConformsDriftDisplayed"]
 SELF_INVS = ["InvValidSystem", "InvValidOps", "InvArithExact", "InvAnnounced"]
 MODEL_INVS = ["InvImposesFull", "InvFixesFull", "InvKeepsPeriodic", "InvImposesCompact", "InvFixesCompact",
               "InvImposesSG", "InvFixesSG", "InvSGKeeps", "InvIdempotent", "InvCompactEqFull", "InvPyEqC",
-              "InvTransposeIsTranspose", "InvTransposeInvolution", "InvDriftUnchanged", "InvExpandIsDefinition",
+              "InvTransposeIsTranspose", "InvTransposeInvolution", "InvDriftUnchanged", "InvDriftDisplayed", "InvExpandIsDefinition",
               "InvCompactFullCompact", "InvToCompactIsDefinition", "InvFullCompactFull"]
 INFO_INVS = ["InfoIsOrthogonalProjector"]
 
@@ -92,7 +92,8 @@ def gen_events(ctx, rs, nprng, scale):
                 add("compact", lv, x)
         add("transpose", 1, x)
     for x in cd:
-        add("drift", 1, x)
+        if npp != ns:  # with one primitive cell the array is square and phonopy takes its full-layout branch
+            add("drift", 1, x)
         add("expand", 1, x)
     for x in cb[:4]:
         add("expand", 1, x)
@@ -193,7 +194,7 @@ def run_trace(ctx, systems, events, variant):
                       cfg_text=cfg_text("Init", "TNext", "MCSystems", "MCEvents", variant,
                                         IMPL_INVS + CONF_INVS + SELF_INVS),
                       extra_files={"MC_SymmetrizeTrace.tla": mc}, requirement=False, workers=WORKERS,
-                      extra_args=("-continue",), coverage=(not ctx.quick and chunk is chunks[0] and len(events) > 600), keep=True)
+                      extra_args=("-continue",), coverage=(not ctx.quick and len(events) > 600), keep=True)
         for k, v in res.coverage.items():
             cov[k] = cov.get(k, 0) + v[1]
         for name, st in verdict_names(res).items():
@@ -230,12 +231,17 @@ Alias == IF pc = "judged"
 
 
 def run_model(ctx, variant):
-    sets = ["CasesQuick(0)"] if ctx.quick else ["CasesExhaustive(0)", "CasesLinear(0)"]
+    sets = ["CasesQuick(0)"] if ctx.quick else ["CasesQuick(0)", "CasesExhaustive(0)", "CasesLinear(0)"]
+    any_violation = False
     for cases in sets:
+        # On a defective transcription thousands of cases fail and TLC reconstructs a trace for each:
+        # the small set enumerates every violated requirement (-continue); the big sets then stop at the first.
+        cont = ("-continue",) if not any_violation else ()
         res = ctx.tlc("MC_SymmetrizeModel",
                       cfg_text=cfg_text("Init", "Next", "MCSystems", "MCCases", variant, MODEL_INVS + SELF_INVS + INFO_INVS),
                       extra_files={"MC_SymmetrizeModel.tla": MC_MODEL % cases}, requirement=False, workers=WORKERS,
-                      extra_args=("-continue",), coverage=(not ctx.quick and cases == sets[0]), keep=True, timeout=3000)
+                      extra_args=cont, coverage=(not ctx.quick and cases == sets[0]), keep=True, timeout=3000)
+        any_violation = any_violation or bool(res.violated)
         names = verdict_names(res)
         if cases == sets[0] and not ctx.quick:
             ctx.extra["model_action_coverage"] = {k: v[1] for k, v in res.coverage.items()}
@@ -417,7 +423,62 @@ def run_session(ctx, systems, variant):
         raise tlcmod.MachineryError("no behaviours generated for replay")
 
 
+# ---------------------------------------------------------------------------
+# ./check C07 --replay <file>: re-run exactly the recorded failing case
+# ---------------------------------------------------------------------------
+def run_replay(ctx):
+    import json
+
+    with open(ctx.replay_path) as fh:
+        d = json.load(fh)
+    key, det = d["key"], d.get("detail") or {}
+    w = det.get("witness") or {}
+    if key.startswith("symmetrize:") and w.get("system"):
+        spec = next(sp for sp in R.SPECS if sp["name"] == w["system"])
+        rs = R.RealSystem(spec, np.random.default_rng(d.get("seed", 0) + 7))
+        systems = {rs.name: rs}
+        x = np.array(w["x_flat"], dtype=np.int64).reshape(w["shape"])
+        nprng = np.random.default_rng(1)
+        events = []
+        cases = [(w["route"], w["level"], x)]
+        if rs.np_ != rs.ns:
+            cases += [("transpose", 1, nprng.integers(-2, 3, size=(rs.np_, rs.ns, 3, 3))) for _ in range(3)]
+        for route, level, xx in cases:
+            obs, _ = R.execute(rs, route, level, xx, via_api=False)
+            events.append(dict(id=len(events), sys=rs.name, route=route, level=level, x=lit(xx), sym=False, periodic=False, obs=obs))
+        ctx.traces += len(events)
+        pf, _ = run_trace(ctx, systems, events[1:], "pinned") if len(events) > 1 else ({}, {})
+        variant = "repaired" if any(n.startswith("Conforms") for n in pf) else "pinned"
+        found, _ = run_trace(ctx, systems, events[:1], variant)
+        ctx.extra["code_follows_variant"] = variant
+        for name, ev in sorted(found.items()):
+            ctx.violation("symmetrize:" + name, "C07 %s fails on the replayed case" % name,
+                          dict(invariant=name, variant=variant, witness=witness(ev, systems)))
+        return
+    if key.startswith("tlc:Symmetrize:") and w.get("sys"):
+        case = "{Mk(%s, %s, %d, %s, %s)}" % (to_tla(w["sys"]), to_tla(w["route"]), w["level"],
+                                            to_tla(dict(den=w["x"]["den"], a=list(w["x"]["a"]), ok=True)), to_tla(w["prep"]))
+        res = ctx.tlc("MC_SymmetrizeModel",
+                      cfg_text=cfg_text("Init", "Next", "MCSystems", "MCCases", det.get("variant", "pinned"),
+                                        MODEL_INVS + SELF_INVS + INFO_INVS),
+                      extra_files={"MC_SymmetrizeModel.tla": MC_MODEL % case}, requirement=False, workers=2,
+                      extra_args=("-continue",), keep=True)
+        for name, st in verdict_names(res).items():
+            k = name if name.startswith(("Inv", "Info")) else "Inv" + name
+            ctx.violation("tlc:Symmetrize:" + k, "TLC: %s violated on the replayed case" % k,
+                          dict(variant=det.get("variant"), witness={kk: st.get(kk) for kk in ("sys", "route", "level", "prep", "x", "fc", "verdict")}))
+        tlcmod.cleanup(res)
+        return
+    run_all(ctx)
+
+
 def run(ctx):
+    if ctx.replay_path:
+        return run_replay(ctx)
+    return run_all(ctx)
+
+
+def run_all(ctx):
     ctx.rule = ("a case = (system, route, level, input array); systems are recorded from real Phonopy objects "
                 "(1-3 atoms per primitive cell, 1-8 primitive cells, even multiplicities included) or abstract tori; "
                 "non-trivial = distinct (system, route, level, input)")
